@@ -48,6 +48,7 @@ PERTS_ALL = ((0.0, 0, 0), (0.0, 0, 1)) + tuple((1.0, s, s % 2) for s in range(5)
 DIMS2 = tuple(itertools.product((1, 2), repeat=3))
 DIMS3 = tuple(itertools.product((1, 2, 3), repeat=3))
 FRACS = (0.5, 0.75, 1.0)
+SCALES = (2.0 ** -10, 2.0 ** 10)          # cell sizes ~1e-3 and ~1e3 (exact dyadic scaling of the coordinates)
 CHAINS = {
     "chain4": ((1, 2), (2, 3), (3, 4), (4, 5)),
     "fork3": ((1, 2), (1, 3), (1, 4)),
@@ -131,6 +132,9 @@ def check_gradient(case):
     """case: {family:'gradient', op, kind, dims, pert, nnum, enum, order, fields}"""
     import pylife.mesh  # noqa: F401
     df, back, _ = mesh_frame(case["kind"], case["dims"], case["pert"], case["nnum"], case["enum"], case["order"])
+    scale = float(case.get("scale", 1.0))       # length unit of the mesh ("any non-degenerate mesh": also millimetre-sized cells in metres)
+    if scale != 1.0:
+        df[["x", "y", "z"]] = df[["x", "y", "z"]] * scale
     op = case["op"]
     # Gradient addresses rows by node id: ids that are not 1..N are their own input class (own key)
     cls = "" if op != "Gradient" or case["nnum"] in ("identity", "reversed", "derangement") else "/node-ids-not-1..N"
@@ -172,6 +176,9 @@ def _gradient_cases(t):
                 for op in ("Gradient3D", "Gradient"):
                     yield {"family": "gradient", "op": op, "kind": kind, "dims": list(dims), "pert": list(pert),
                            "nnum": "identity", "enum": "identity", "order": "given", "fields": [list(c) for c in sweep["fields"]]}
+                    for scale in SCALES:
+                        yield {"family": "gradient", "op": op, "kind": kind, "dims": list(dims), "pert": list(pert), "scale": scale,
+                               "nnum": "times10plus5", "enum": "identity", "order": "given", "fields": [list(c) for c in FIELDS_FEW]}
     for kind in g["kinds"]:
         for dims in g["dims"]:
             for pert in g["perts"]:
@@ -211,8 +218,9 @@ def check_mapping(case):
         tgt = df[["x", "y", "z"]].groupby("element_id").mean()
     else:
         h = M.SPACINGS[pert[2]]
-        pts = [(nx * a * h[0], ny * b * h[1], nz * cc * h[2])
-               for a in (0.25, 0.5, 0.75) for b in (0.25, 0.5, 0.75) for cc in (0.25, 0.5, 0.75)]
+        zs = (0.25, 0.5, 0.75) if case["target"] == "lattice" else (0.4,)       # 'plane' / 'single': all targets share one z
+        ab = (0.25, 0.5, 0.75) if case["target"] != "single" else (0.3,)
+        pts = [(nx * a * h[0], ny * b * h[1], nz * cc * h[2]) for a in ab for b in ab for cc in zs]
         tgt = pd.DataFrame(pts, columns=["x", "y", "z"], index=pd.Index(range(500, 500 + len(pts)), name="point"))
     try:
         with warnings.catch_warnings():
@@ -239,7 +247,7 @@ def _mapping_cases(t):
     for dims in m["dims"]:
         for pert in m["perts"]:
             for source in ("nodes", "nodes-shuffled", "mesh-rows"):
-                for target in ("same", "centroids", "lattice"):
+                for target in ("same", "centroids", "lattice", "plane", "single"):
                     fl = m["fields"] if source == "nodes" else m.get("fields_other_sources", m["fields"])
                     fields = [list(c) for c in fl] + (["nonlinear"] if target == "same" else [])
                     for c in fields:
